@@ -196,6 +196,7 @@ def run(chk):
         judge(chk, sc, o)
     from harness import realproc
     realproc.group_sigint_suite(chk, quick=chk.tier != 'thorough')
+    realproc.full_pipe_sigint_suite(chk, quick=chk.tier != 'thorough')
     chk.notes['sigint_sweep'] = {'bases': len(bases), 'injection_points': len(swept), 'outcomes': outcomes, 'exhaustive_per_base': True}
     chk.assumptions += ['delivery granularity is the scheduling point (primitive operation), not the bytecode',
                         'a terminal Ctrl-C (signal to every process of the group) is swept on kept-alive pools whose workers were restarted by the pool\'s own threads']
